@@ -156,7 +156,56 @@ DOCS = [
     ({"type": "bundle", "id": "bundle--" + UU, "spec_version": "2.0", "objects": [
         {"type": "tool", "id": "tool--" + UU, "created": "2020-01-01T00:00:00.000Z", "modified": "2020-01-01T00:00:00.000Z", "name": "t", "labels": ["x"]}]}, "2.0"),
     ({"type": "bundle", "id": "bundle--" + UU, "objects": [{"type": "file", "id": "file--" + UU, "name": "f"}]}, "2.1"),
+    # a bundle whose members carry no version of their own: under a named version each member is that version (a 2.0-looking identity, and an
+    # identity whose UUIDv1 id only 2.1 accepts)
+    ({"type": "bundle", "id": "bundle--" + UU, "objects": [
+        {"type": "identity", "id": "identity--" + UU, "created": "2020-01-01T00:00:00.000Z", "modified": "2020-01-01T00:00:00.000Z", "name": "n",
+         "identity_class": "individual"}]}, "2.1"),
+    ({"type": "bundle", "id": "bundle--" + UU, "objects": [
+        {"type": "identity", "id": "identity--e0a3f0c4-0b9a-11ee-be56-0242ac120002", "created": "2020-01-01T00:00:00.000Z",
+         "modified": "2020-01-01T00:00:00.000Z", "name": "n", "identity_class": "individual"}]}, "2.1"),
 ]
+NDOC = len(DOCS)
+# what the library itself writes for version V is recognised as version V when no version is named
+PRODUCED = [
+    (lambda: stix2.v21.Bundle(id="bundle--" + UU), "2.1"), (lambda: stix2.v20.Bundle(id="bundle--" + UU), "2.0"),
+    (lambda: stix2.v21.Bundle(stix2.v21.Identity(name="n", identity_class="individual")), "2.1"),
+    (lambda: stix2.v20.Bundle(stix2.v20.Identity(name="n", identity_class="individual")), "2.0"),
+    (lambda: stix2.v21.Bundle(stix2.v20.Identity(name="n", identity_class="individual")), "2.1"),
+    (lambda: stix2.v21.Identity(name="n", identity_class="individual"), "2.1"), (lambda: stix2.v20.Identity(name="n", identity_class="individual"), "2.0"),
+    (lambda: stix2.v21.TLP_WHITE, "2.1"), (lambda: stix2.v20.TLP_WHITE, "2.0"),
+    (lambda: stix2.v21.MarkingDefinition(definition_type="statement", definition={"statement": "s"}), "2.1"),
+    (lambda: stix2.v20.MarkingDefinition(definition_type="statement", definition={"statement": "s"}), "2.0"),
+    (lambda: stix2.v21.IPv4Address(value="1.2.3.4"), "2.1"), (lambda: stix2.v21.Relationship("malware--" + UU, "uses", "tool--" + UU), "2.1"),
+    (lambda: stix2.v20.Relationship("malware--" + UU, "uses", "tool--" + UU), "2.0"),
+    (lambda: stix2.v21.LanguageContent(object_ref="identity--" + UU, contents={"de": {"name": "n"}}), "2.1"),
+    (lambda: stix2.v20.ObservedData(first_observed="2020-01-01T00:00:00Z", last_observed="2020-01-01T00:00:00Z", number_observed=1,
+                                    objects={"0": {"type": "file", "name": "f"}}), "2.0"),
+]
+NPROD = len(PRODUCED)
+
+
+def produced_recognised(pi: int, form: int) -> bool:
+    """
+    pre: 0 <= pi < NPROD and 0 <= form < 3
+    post: _
+    """
+    pi, form = pick(pi, NPROD), pick(form, 3)
+    with Native():
+        ok = run_produced_case(pi, form)
+    V.reached()
+    return ok
+
+
+def run_produced_case(pi, form):
+    make, ver = PRODUCED[pi]
+    o = make()
+    text = o.serialize()
+    data = [text, json.loads(text), o.serialize(pretty=True, include_optional_defaults=True)][form]
+    if stix2.utils.detect_spec_version(json.loads(text)) != ver:
+        return False
+    back = stix2.parse(data)
+    return type(back) is type(o) and class_version(back) == ver and back.serialize() == text
 BAD_IDS = ["identity--{%s}" % UU, "identity--urn:uuid:" + UU, "identity--" + UU.replace("-", ""), "identity--" + UU + "\n",
            "identity--311b2d2d-f010-1473-c3ec-1edf84858f4c", "identity--not-a-uuid"]
 
@@ -171,10 +220,10 @@ def class_version(o):
 
 def entry_points(di: int, named: int, ep: int) -> bool:
     """
-    pre: 0 <= di < 6 and 0 <= named <= 2 and 0 <= ep <= 3
+    pre: 0 <= di < NDOC and 0 <= named <= 2 and 0 <= ep <= 5
     post: _
     """
-    di, named, ep = pick(di, 6), pick(named, 3), pick(ep, 4)
+    di, named, ep = pick(di, NDOC), pick(named, 3), pick(ep, 6)
     with Native():
         ok = run_entry_case(di, named, ep)
     V.reached()
@@ -206,9 +255,17 @@ def run_entry_case(di, named, ep):
     refs = [direct(m) for m in members]
     ffs = fakefs.FakeFS()
     saved = fakefs.install(F, ffs)
+    saved_m = fakefs.install(M, ffs) if ep >= 4 else None
     try:
         try:
-            if ep == 1:
+            if ep >= 4:
+                # a file written elsewhere, loaded with a named version: MemorySource.load_from_file and MemoryStore.load_from_file
+                ffs.makedirs("/in")
+                ffs.files["/in/data.json"] = json.dumps(doc)
+                store = M.MemorySource(allow_custom=False) if ep == 4 else M.MemoryStore(allow_custom=False)
+                store.load_from_file("/in/data.json", version=version)
+                objs = store.query()
+            elif ep == 1:
                 store = M.MemoryStore(allow_custom=False)
                 store.add(json.loads(json.dumps(doc)), version=version)
                 objs = store.query()
@@ -223,6 +280,8 @@ def run_entry_case(di, named, ep):
             return any(r is None for r in refs)     # refused: fine iff a direct parse with the same version refuses too
     finally:
         F.os, F.io = saved
+        if saved_m:
+            M.os, M.io = saved_m
     if any(r is None for r in refs):
         return False                                # a store accepted what a direct parse with the same version refuses
     return len(objs) == len(refs) and all(type(o) is type(m) for o, m in zip(objs, refs))
